@@ -124,6 +124,9 @@ def urlencBodyCallback (cfg : Cfg) (uid : Nat) (data : Option Bytes) (c : Conn) 
     match t.urlenBody with
     | none => (c, .ok)
     | some u =>
+      -- "invoked again after the finalization" (params table already handed over): HTP_ERROR, for data as well as for NULL.
+      -- A stream gap reaches this callback as NULL data, so it finalizes, and the next body data is refused.
+      if u.complete then (c, .error) else
       match data with
       | some d =>
         -- parser threads tx->flags / expected status
@@ -131,8 +134,6 @@ def urlencBodyCallback (cfg : Cfg) (uid : Nat) (data : Option Bytes) (c : Conn) 
         let u := Urlenc.feed cfg.urlencCfg u d
         (c.setTx { t with urlenBody := some u, flags := u.flags, expectedStatus := u.status }, .ok)
       | none =>
-        if u.complete then (c, .error)     -- params table already handed over: HTP_ERROR
-        else
           let u := { u with flags := t.flags, status := t.expectedStatus }
           let u := Urlenc.finalize cfg.urlencCfg u
           let ps := u.params.reverse.map (fun (n, v) => ({ name := n, value := some v, source := 3 } : Param))
